@@ -514,3 +514,23 @@ Fixpoint acked_twice (l : list (bytes * Z)) : bool :=
   | [] => false
   | (w, b) :: l' => existsb (fun e => beq (fst e) w) l' || acked_twice l'
   end.
+
+(* week_reports_ok: the program entries observed in a local report (identity
+   id, then (counter id, value) pairs - counters and stack counters, sorted by
+   id; identities sorted) are the grouping of the folded count files by their
+   FULL program identity (cf_prog: the id of the five fields Program, Version,
+   GoVersion, GOOS, GOARCH), each value the sum over exactly that group *)
+Fixpoint kvs_eqb (a b : list (N * Z)) : bool :=
+  match a, b with
+  | [], [] => true
+  | (k, v) :: a', (k', v') :: b' => N.eqb k k' && Z.eqb v v' && kvs_eqb a' b'
+  | _, _ => false
+  end.
+Fixpoint progs_eqb (a b : list (N * list (N * Z))) : bool :=
+  match a, b with
+  | [], [] => true
+  | (p, cs) :: a', (p', cs') :: b' => N.eqb p p' && kvs_eqb cs cs' && progs_eqb a' b'
+  | _, _ => false
+  end.
+Definition week_reports_ok (obs : list (N * list (N * Z))) (files : list (bytes * cfile)) : bool :=
+  progs_eqb obs (sums [] false files).
